@@ -82,6 +82,11 @@ def check(facts, rep, tier, cfg):
         results[val] = [ef for _, ef in outs if "diverges" not in ef]
     for val, label in ((0, "failure"), (1, "local-drop")):
         effs = results[val]
+        okd, detail = source_dispatch_before_eof(effs)
+        if okd:
+            rep.ok("C08.R1", "source-before-drain/%s" % label, where, detail)
+        else:
+            rep.bad("C08.R1", "source-before-drain/%s" % label, where, detail)
         if not effs:
             rep.bad("C08.R1", "paths/%s" % label, where, "no terminating path through the wind-down function for flag=%s" % bool(val))
             continue
@@ -270,6 +275,44 @@ def check(facts, rep, tier, cfg):
         else:
             rep.bad("C08.R5", "%s/closed-mapping" % root.path, w5, "a closed queue / dropped oneshot in this public method is not reported as Error::Closed")
     rep.floor("C08.R5", "fallible queue operations in public methods", n, 5)
+
+
+def source_dispatch_before_eof(effs):
+    """Frames still buffered in the WebSocket source are dispatched to the streams BEFORE the flow table is drained
+    (= before end-of-stream is delivered to the readers)."""
+    for ef in effs:
+        d = idx(ef, "map:drain")
+        nx = [i for i, e in enumerate(ef) if e in ("ws:poll_next", "may:ws:poll_next")]
+        if d is None:
+            continue
+        if not nx:
+            return False, "a teardown path drains the flow table without first dispatching what is still buffered in the source: %s" % list(ef)
+        if any(i > d for i in nx):
+            return False, ("the flow table is drained (end-of-stream delivered to every reader) BEFORE the frames still buffered in the "
+                           "WebSocket source are dispatched: data the peer sent before closing is dropped and readers see EOF early "
+                           "(milestones: %s)" % list(ef))
+    return True, "on every path the source is polled for remaining frames before the flow table is drained"
+
+
+def teardown_outcomes(facts, crate):
+    """(wind-down body, {flag value: [ordered effect tuples]}) - shared with C05."""
+    from an import logical_root
+    wd = None
+    for b in crate.bodies:
+        for bi, t in b.calls():
+            c = callee(t)
+            if c and c["name"] == "drain" and "HashMap" in c["def"] and "FlowSlot" in c["path"]:
+                wd = logical_root(facts, b)
+    if wd is None:
+        return None, {}
+    flag_params = [i for i in range(1, wd.argc + 1) if wd.locals[i]["s"] == "bool"]
+    results = {}
+    for val in (0, 1):
+        eng = EffectEngine(facts, ordered=True, keep=lambda t: t in MS, keep_fact=lambda f: False,
+                           opaque=lambda tb: any("ws::Message" in tb.locals[i]["s"] for i in range(1, tb.argc + 1)))
+        outs = eng.outcomes(wd, tuple((p, val) for p in flag_params))
+        results[val] = [ef for _, ef in outs if "diverges" not in ef]
+    return wd, results
 
 
 def lt(a, b):
